@@ -18,6 +18,7 @@ func init() {
 			"(R2) the temporary is created in filepath.Dir(path) (same filesystem, so rename is atomic) with a name prefix that starts with TemporaryNamePrefix (scans ignore it); " +
 			"(R3) every error exit after the temporary exists removes it; " +
 			"(R4, who-may-write) encoding.MarshalAndSave persists only through WriteFileAtomic, passing the marshalled bytes only if marshalling succeeded, and contains no other file-creating call; packages synchronization, forwarding, endpoint/local and encoding contain no direct file-writing call at all (os.WriteFile/Create/OpenFile) — a positive control inside package filesystem shows the matcher works. " +
+			"(R5) filesystem.Rename itself replaces by renaming only — it never unlinks, removes or truncates the target before the rename; " +
 			"Not decided: crash atomicity of rename(2) itself; durability (no fsync is claimed).",
 		Assumptions: []string{"rename(2) within one directory is atomic"},
 		Run:         runC27,
@@ -25,6 +26,7 @@ func init() {
 }
 
 func runC27(c *eng.Ctx) {
+	c27RenameNeverUnlinks(c)
 	fn := c.MustFunc("R1", fsPkg, "WriteFileAtomic")
 	if fn == nil {
 		return
